@@ -29,6 +29,10 @@ type Event struct {
 	TimeoutMs uint64 `json:"timeout_ms,omitempty"`
 	// Cond: which of the two condition variables (each with its own mutex)
 	Cond int `json:"cond,omitempty"`
+	// HoldUs: a signaller that takes the lock, keeps it for this long and only
+	// then signals (generated only seconds away from the call's timeout, so that
+	// no expiry can fall into the time the lock is held)
+	HoldUs int64 `json:"hold_us,omitempty"`
 }
 
 type Call struct {
@@ -134,6 +138,15 @@ func (c16) Gen(rng *simrt.Rand, tier string, run int) interface{} {
 			e.TimeoutMs = []uint64{0, 1, 5, 50, 3000}[rng.Intn(5)]
 		}
 		p.Events = append(p.Events, e)
+	}
+	for ci, c := range p.Calls {
+		if c.TimeoutMs == 1<<32 && len(p.Calls) == 1 && rng.Chance(1, 2) {
+			// the lock is held across a whole second of a ten-second wait, then the
+			// signal comes (the timeout itself is seconds away from the hold)
+			p.Calls[ci].TimeoutMs = 10000
+			k := int64(1 + rng.Intn(3))
+			p.Events = []Event{{AtUs: starts[ci] + k*1_000_000 - int64(rng.Pick(1, 500, 999)), Kind: rng.PickStr("signal", "broadcast"), HoldUs: int64(rng.Pick(1000, 2000))}}
+		}
 	}
 	sort.SliceStable(p.Events, func(i, j int) bool { return p.Events[i].AtUs < p.Events[j].AtUs })
 	if rng.Chance(1, 4) {
@@ -308,6 +321,9 @@ func (c16) Exec(pj json.RawMessage, tape *simrt.Tape, keepLog bool) harness.RunO
 				if finished {
 					mu.Unlock()
 					return
+				}
+				if e.HoldUs > 0 {
+					simrt.Sleep(e.HoldUs * 1000)
 				}
 				add(e.Kind, -1, e.Cond&1)
 				switch e.Kind {
